@@ -109,6 +109,11 @@ func verifC05Restart(native bool) {
 		return
 	}
 	zz.ClockStep()
+	// transient Load failures: the own snapshot may not be downloadable for a while
+	st.failLoad = zz.Choice("load.fails", 3)
+	if zz.Choice("load.fails.own", 2) == 1 {
+		st.failLoadName = "__inst__"
+	}
 	crashAt := zz.Choice("crash.at", 12) // 0 = no crash; k = at the k-th yield point of the first run
 	nYield := 0
 	maxIter := 3
